@@ -145,17 +145,22 @@ class C32(Check):
     # ---------------------------------------------------------------- known defects (auto-detected)
     def setup_worker(self, tier):
         self.tier = tier
-        self.kf = {}
-        probe = engine.Driver(self.variant, self.exe, 30.0)
+        # known defects are detected by probing, so the exclusions disappear by themselves once the library is fixed;
+        # a probe that cannot be run leaves the exclusion on (it only narrows the search)
+        self.kf = {"pm1_n4": True, "neg_a_mod4": True}
+        probe = engine.Driver(self.variant, self.exe, 120.0, env={"ASAN_OPTIONS": engine.ASAN_OPTIONS.replace("symbolize=1", "symbolize=0")})
         try:
             try:
                 probe.run([["nt_factor_pollard_pm1", 4, 3, 1]])
                 self.kf["pm1_n4"] = False
-            except (engine.DriverCrash, engine.DriverTimeout):
-                self.kf["pm1_n4"] = True
+            except (engine.DriverCrash, engine.DriverTimeout, OSError):
+                pass
             # negative a with 4 | m: `a % 4 == 3` in _nthroot_mod_prime_power uses the truncated C++ remainder
-            r = probe.run([["nt_nthroot_mod", -1, 2, 4]])[0]
-            self.kf["neg_a_mod4"] = not (isinstance(r, list) and r[0] is False)
+            try:
+                r = probe.run([["nt_nthroot_mod", -1, 2, 4]])[0]
+                self.kf["neg_a_mod4"] = not (isinstance(r, list) and r[0] is False)
+            except (engine.DriverCrash, engine.DriverTimeout, OSError):
+                pass
         finally:
             probe.stop()
 
